@@ -15,7 +15,8 @@
 (* the work is spread over all TLC workers.                                *)
 (***************************************************************************)
 EXTENDS Lex, Json
-CONSTANT IdAtomsMax       \* identifiers: sequences of up to this many atoms
+CONSTANTS IdAtomsMax,     \* identifiers: sequences of up to this many atoms
+          OnlyFam         \* "" = all families, otherwise just that one
 VARIABLES fam, lit, ctxt
 
 S(x) == StrCps(x)
@@ -148,7 +149,7 @@ InContext(c, k) ==
                          Coll(Y, "any", Lam(<<"Id", <<>>, S("v")>>, Cmp("eq", <<"Id", <<>>, S("v")>>, L))), <<2, 2, 2>> >>
 
 NoLit == [kind |-> "none"]
-Init == fam \in Families /\ lit = NoLit /\ ctxt = "none"
+Init == fam \in (IF OnlyFam = "" THEN Families ELSE {OnlyFam}) /\ lit = NoLit /\ ctxt = "none"
 PickLit == /\ lit = NoLit /\ \E c \in CasesOf(fam) : lit' = c
            /\ UNCHANGED <<fam, ctxt>>
 PickCtx == /\ lit # NoLit /\ ctxt = "none" /\ \E k \in Contexts : ctxt' = k
